@@ -738,6 +738,54 @@ pub struct PairNote {
 }
 
 /// Returns (variant, name of the transformation) or None if no transformation applies.
+pub const ENC_VS_EXPLICIT: &str = "encode_video/encode_audio vs explicit timestamps";
+
+/// The history with every encode_* call replaced by the explicit-timestamp call at the value the
+/// library's automatic clock has at that point. The clock advances only on accepted calls, and which calls
+/// are accepted is taken from executing `base` on the library under test - so the variant is derived again
+/// whenever the pair is evaluated (a stored variant would carry the acceptances of the tree it was drawn on).
+pub fn explicit_variant(base: &ProgCase) -> Option<ProgCase> {
+    let mut c = base.clone();
+    if !c.ops.iter().any(|o| matches!(o, Op::EncVideo { .. } | Op::EncAudio { .. })) {
+        return None;
+    }
+    let codec = c.cfg.video.as_ref().map(|v| v.codec)?;
+    let rate = c.cfg.audio_effective().map(|a| a.rate).unwrap_or(0);
+    let ex = exec::run_prog(base);
+    let mut av = 0.0f64;
+    let mut aa = 0.0f64;
+    let mut vcount = 0u64;
+    for (i, op) in c.ops.iter_mut().enumerate() {
+        let accepted = ex.ops.get(i).map(|r| r.res.is_ok()).unwrap_or(false);
+        match op.clone() {
+            Op::EncVideo { data, dur_ms, cc } => {
+                let k = crate::model::auto_key(codec, &data.0, vcount)?;
+                *op = Op::Video { pts: F(av), data, key: k, cc };
+                if accepted {
+                    av += dur_ms as f64 / 1000.0;
+                    vcount += 1;
+                }
+            }
+            Op::EncAudio { data, samples } => {
+                *op = Op::Audio { pts: F(aa), data };
+                if accepted {
+                    if rate == 0 {
+                        return None;
+                    }
+                    aa += samples as f64 / rate as f64;
+                }
+            }
+            Op::Video { .. } | Op::VideoDts { .. } => {
+                if accepted {
+                    vcount += 1;
+                }
+            }
+            _ => {}
+        }
+    }
+    Some(c)
+}
+
 pub fn equivalent_variant(base: &ProgCase, rng: &mut Rng) -> Option<(ProgCase, &'static str)> {
     let mut order: Vec<u8> = (0..6).collect();
     for i in (1..order.len()).rev() {
@@ -780,52 +828,8 @@ pub fn equivalent_variant(base: &ProgCase, rng: &mut Rng) -> Option<(ProgCase, &
             }
             4 => {
                 // encode_* vs explicit timestamps at the same accumulated f64 values
-                if c.ops.iter().any(|o| matches!(o, Op::EncVideo { .. } | Op::EncAudio { .. })) {
-                    let codec = c.cfg.video.as_ref().map(|v| v.codec)?;
-                    let rate = c.cfg.audio_effective().map(|a| a.rate).unwrap_or(0);
-                    // replay the library's accumulators with the results of the base run
-                    let ex = exec::run_prog(base);
-                    let mut av = 0.0f64;
-                    let mut aa = 0.0f64;
-                    let mut vcount = 0u64;
-                    let mut ok = true;
-                    for (i, op) in c.ops.iter_mut().enumerate() {
-                        let accepted = ex.ops.get(i).map(|r| r.res.is_ok()).unwrap_or(false);
-                        match op.clone() {
-                            Op::EncVideo { data, dur_ms, cc } => {
-                                match crate::model::auto_key(codec, &data.0, vcount) {
-                                    Some(k) => *op = Op::Video { pts: F(av), data, key: k, cc },
-                                    None => {
-                                        ok = false;
-                                        break;
-                                    }
-                                }
-                                if accepted {
-                                    av += dur_ms as f64 / 1000.0;
-                                    vcount += 1;
-                                }
-                            }
-                            Op::EncAudio { data, samples } => {
-                                *op = Op::Audio { pts: F(aa), data };
-                                if accepted {
-                                    if rate == 0 {
-                                        ok = false;
-                                        break;
-                                    }
-                                    aa += samples as f64 / rate as f64;
-                                }
-                            }
-                            Op::Video { .. } | Op::VideoDts { .. } => {
-                                if accepted {
-                                    vcount += 1;
-                                }
-                            }
-                            _ => {}
-                        }
-                    }
-                    if ok {
-                        return Some((c, "encode_video/encode_audio vs explicit timestamps"));
-                    }
+                if let Some(v) = explicit_variant(base) {
+                    return Some((v, ENC_VS_EXPLICIT));
                 }
             }
             _ => {
@@ -851,6 +855,19 @@ pub fn equivalent_variant(base: &ProgCase, rng: &mut Rng) -> Option<(ProgCase, &
 }
 
 pub fn eval_pair(base: &ProgCase, variant: &ProgCase, what: &str, st: &mut RunStats) -> Vec<Violation> {
+    // the one transformation that depends on the library's own decisions is derived afresh (see explicit_variant)
+    let rederived;
+    let variant = if what == ENC_VS_EXPLICIT {
+        match explicit_variant(base) {
+            Some(v) => {
+                rederived = v;
+                &rederived
+            }
+            None => return Vec::new(),
+        }
+    } else {
+        variant
+    };
     let mut out = Vec::new();
     let a = exec::run_prog(base);
     let b = exec::run_prog(variant);
